@@ -350,7 +350,7 @@ func forEachMediaRange(header []byte, functor func([]byte)) {
 
 	for len(header) > 0 {
 		n := 0
-		header = utils.TrimLeft(header, ' ')
+		header = trimLeftOWS(header)
 		quotes := 0
 		escaping := false
 
@@ -358,19 +358,16 @@ func forEachMediaRange(header []byte, functor func([]byte)) {
 			// Complex case. We need to keep track of quotes and quoted-pairs (i.e.,  characters escaped with \ )
 		loop:
 			for n < len(header) {
-				switch header[n] {
-				case ',':
-					if quotes%2 == 0 {
-						break loop
-					}
-				case '"':
-					if !escaping {
-						quotes++
-					}
-				case '\\':
-					if quotes%2 == 1 {
-						escaping = !escaping
-					}
+				switch c := header[n]; {
+				case escaping:
+					// the character after a backslash inside a quoted string is taken literally
+					escaping = false
+				case c == '\\' && quotes%2 == 1:
+					escaping = true
+				case c == '"':
+					quotes++
+				case c == ',' && quotes%2 == 0:
+					break loop
 				}
 				n++
 			}
@@ -381,13 +378,28 @@ func forEachMediaRange(header []byte, functor func([]byte)) {
 			}
 		}
 
-		functor(header[:n])
+		functor(trimRightOWS(header[:n]))
 
 		if n >= len(header) {
 			return
 		}
 		header = header[n+1:]
 	}
+}
+
+// trimLeftOWS / trimRightOWS strip optional whitespace (SP / HTAB, RFC 9110 5.6.3).
+func trimLeftOWS(b []byte) []byte {
+	for len(b) > 0 && (b[0] == ' ' || b[0] == '\t') {
+		b = b[1:]
+	}
+	return b
+}
+
+func trimRightOWS(b []byte) []byte {
+	for len(b) > 0 && (b[len(b)-1] == ' ' || b[len(b)-1] == '\t') {
+		b = b[:len(b)-1]
+	}
+	return b
 }
 
 // Pool for headerParams instances. The headerParams object *must*
@@ -434,7 +446,7 @@ func getOffer(header []byte, isAccepted func(spec, offer string, specParams head
 					delete(params, k)
 				}
 				fasthttp.VisitHeaderParams(accept[i:], func(key, value []byte) bool {
-					if len(key) == 1 && key[0] == 'q' {
+					if len(key) == 1 && key[0]|0x20 == 'q' {
 						if q, err := fasthttp.ParseUfloat(value); err == nil {
 							quality = q
 						}
@@ -453,7 +465,7 @@ func getOffer(header []byte, isAccepted func(spec, offer string, specParams head
 			}
 		}
 
-		spec = utils.Trim(spec, ' ')
+		spec = trimRightOWS(trimLeftOWS(spec))
 
 		// Determine specificity
 		var specificity int
